@@ -62,6 +62,14 @@ def world():
             m = mm.model_from_str(t)
             objs = [m] + get_children(lambda x: x is not m, m)
             _S["models"].append((m, objs))
+
+        # the first model once more with user classes whose instances are FALSY (containers reporting len() == 0)
+        def falsy(name):
+            return type(name, (), {"__init__": lambda self, **kw: self.__dict__.update(kw), "__len__": lambda self: 0})
+        mmf = metamodel_from_str(GRAMMAR, classes=[falsy("P"), falsy("C"), falsy("M")])
+        mmf.register_scope_providers({"*.ext": by_uid})
+        m = mmf.model_from_str(MODELS[0])
+        _S["models"].append((m, [m] + get_children(lambda x: x is not m, m)))
     return _S["mm"], _S["models"]
 
 
